@@ -4,7 +4,7 @@
    static rule injected at every position of those programs. *)
 EXTENDS LangGen
 MCP == [names |-> {"x"}, funs |-> {"f"}, arity |-> [f \in {"f"} |-> IF IOEnv.ARITY = "1" THEN 1 ELSE 0], ty |-> "num",
-        kinds |-> {"make", "shout", "block", "if", "loop", "def", "inject", "call", "cheaploop", "nestdef", "redecl"},
+        kinds |-> {"make", "shout", "block", "if", "loop", "def", "inject", "call", "cheaploop", "nestdef", "redecl", "rettype"},
         prelude |-> <<>>, preDecl |-> {}, ops |-> {},
         maxStmts |-> atoi(IOEnv.MAXSTMTS), minStmts |-> 1, maxDepth |-> atoi(IOEnv.MAXDEPTH), fuel |-> 300, events |-> 0]
 ====
